@@ -440,7 +440,9 @@ class C02(LockCheck):
                 'CppUtil.Props.c02_mcs_blocked_xSpin', 'CppUtil.Props.c02_mcs_front_passes',
                 'CppUtil.Props.c02_mcs_blocked_sSpinLock', 'CppUtil.Props.c02_mcs_blocked_drain',
                 'CppUtil.Props.c02_fair_termination_pess', 'CppUtil.Props.c02_fair_termination_opt',
-                'CppUtil.Props.c02_closed_system_steps', 'CppUtil.Props.c02_fair_termination_nonvacuous']
+                'CppUtil.Props.c02_closed_system_steps', 'CppUtil.Props.c02_fair_termination_nonvacuous',
+                'CppUtil.Props.c02_fair_termination_conv_pess', 'CppUtil.Props.c02_fair_termination_conv_opt',
+                'CppUtil.Props.c02_closed_system_conv_steps', 'CppUtil.Props.c02_fair_termination_conv_nonvacuous']
     extra_modules = ['CppUtil.Props.McsBits']
     categories = []
     stuck_relevant = True
